@@ -101,6 +101,28 @@ def observe(H, g, post, rng):
     o["isoig"] = _try(lambda: [iN(n) for n in H.nodes.isolates(ignore_singletons=True)])
     o["single"] = _try(lambda: [iE(e) for e in H.edges.singletons()])
     o["empty"] = _try(lambda: [iE(e) for e in H.edges.empty()])
+    from .c12 import frac
+
+    if nodes:
+        o["agg"] = _try(lambda: [int(deg.max()), int(deg.min()), int(deg.sum()), iN(deg.argmax()), iN(deg.argmin())])
+        o["argsort"] = _try(lambda: [iN(n) for n in deg.argsort()])
+        o["mean"] = _try(lambda: frac(deg.mean()))
+        o["mean"] = o["mean"] if o["mean"] is not ERR else [1, 0]
+    else:
+        o["agg"], o["argsort"], o["mean"] = [], [], [0, 1]
+    import xgi as _x
+
+    def props():
+        u = _x.is_uniform(H)
+        mo = _x.max_edge_order(H)
+        return [_ints(_x.unique_edge_sizes(H)), [-1 if mo is None else int(mo)], [-1 if u is False else int(u)],
+                [int(_x.num_edges_order(H, d)) for d in range(4)], [int(_x.num_edges_order(H))],
+                _ints(_x.degree_counts(H))]
+    o["props"] = _try(props) if nodes else []
+    if o["props"] is ERR:
+        o["props"] = [[-99]]
+    o["enb"] = [[iN(n), _try(lambda n=n: [sorted(iN(x) for x in s_) for s_ in _x.edge_neighborhood(H, n)])] for n in nodes[:5]] \
+        if nodes else []
     o["max"] = _try(lambda: [iE(e) for e in H.edges.maximal()])
     o["maxs"] = _try(lambda: [iE(e) for e in H.edges.maximal(strict=True)])
     return {"obs": o}
